@@ -66,6 +66,13 @@ def run(chk):
             chk.sample({"assignment": m["assignment"], "formats": m["formats"], "inputs": m.get("inputs"), "kind": m["kind"], "capacity": cap})
 
 
+    # static certificate: every store of the compute kernel goes into the block out->vals pointed to at
+    # entry; every other block is cell-for-cell unchanged, for ALL inputs (CERT_compute_store_sound)
+    from props._certs import cert_props, run_certs
+    cert_props(chk)
+    run_certs(chk, ["compute_store"], priority=SHAPES)
+
+
 def replay(chk, payload):
     print(json.dumps(payload, indent=1)[:4000])
     return 0
